@@ -8,8 +8,10 @@ import (
 	"encoding/json"
 	"flag"
 	"fmt"
+	"golang.org/x/tools/go/ssa"
 	"os"
 	"path/filepath"
+	"reflect"
 	"runtime/debug"
 	"runtime/pprof"
 	"sort"
@@ -41,6 +43,9 @@ func main() {
 	list := flag.Bool("list", false, "list obligations")
 	noControls := flag.Bool("no-controls", false, "skip positive controls")
 	cpuprof := flag.String("cpuprofile", "", "write a CPU profile")
+	nfDump := flag.String("nf-dump", "", "internal: write the normal form with these helpers (comma separated bare names, or 'all') inlined to the directory given by -nf-out")
+	nfOut := flag.String("nf-out", "", "internal: directory for -nf-dump")
+	noNF := flag.Bool("no-normal-form", false, "decide on the text as written only")
 	flag.Parse()
 	debug.SetGCPercent(800)
 	if *cpuprof != "" {
@@ -63,6 +68,10 @@ func main() {
 	if *explain != "" {
 		os.Exit(doExplain(*explain, *repo, *verif))
 	}
+	if *nfDump != "" {
+		os.Exit(doNFDump(*repo, *nfDump, *nfOut))
+	}
+	noNormalForm = *noNF
 	if *prop == "" {
 		fmt.Fprintln(os.Stderr, "usage: ggqlcheck -property Cnn [-tier quick|thorough]")
 		os.Exit(2)
@@ -144,6 +153,14 @@ func runProperty(id, tier, repo, verif string, seed int, mutant string, list, no
 		return 1
 	}
 	extra := map[string]interface{}{}
+	if !noNormalForm {
+		if rep2, note := tryNormalForms(id, tier, repo, rep, known); rep2 != nil {
+			rep = rep2
+			extra["normal_form"] = note
+		} else if note != nil {
+			extra["normal_form_attempts"] = note
+		}
+	}
 	if !noControls {
 		runControls(id, tier, repo, verif, rep, known)
 	}
@@ -156,6 +173,213 @@ func runProperty(id, tier, repo, verif string, seed int, mutant string, list, no
 		}
 	}
 	return rep.finish(verif, known, time.Since(t0), seed, extra)
+}
+
+var noNormalForm bool
+
+func doNFDump(repo, names, out string) int {
+	want := map[string]bool{}
+	for _, n := range strings.Split(names, ",") {
+		want[n] = true
+	}
+	anch := anchorWords()
+	res, err := normalForm(repo, func(name string) bool {
+		bare := name[strings.LastIndex(name, ".")+1:]
+		if want["all"] {
+			return !anch[bare]
+		}
+		return want[bare]
+	})
+	if err != nil {
+		fmt.Fprintln(os.Stderr, err)
+		return 1
+	}
+	fmt.Println("inlined:", res.inlined)
+	fmt.Println("kept:", res.kept)
+	if out != "" {
+		_ = os.MkdirAll(out, 0o755)
+		for f, b := range res.overlay {
+			_ = os.WriteFile(filepath.Join(out, filepath.Base(f)), b, 0o644)
+		}
+	}
+	return 0
+}
+
+// failing lists the obligations that are neither discharged nor a listed known finding.
+func failing(rep *Report, known *KnownFile) []Obligation {
+	var out []Obligation
+	for _, o := range rep.Obls {
+		switch o.Status {
+		case Undecided:
+			out = append(out, o)
+		case Violated:
+			isKnown := false
+			for _, k := range known.Findings {
+				if k.Property == rep.Property && k.Rule == o.Rule && k.Key == o.Key {
+					isKnown = true
+				}
+			}
+			if !isKnown {
+				out = append(out, o)
+			}
+		}
+	}
+	return out
+}
+
+// tryNormalForms: when the rules leave obligations open on the text as written, the property is decided
+// again on normal forms of the source in which unexported helpers connected to those obligations are
+// inlined at their call sites (normalform.go). The first normal form on which everything is discharged
+// gives the verdict; otherwise the report on the text as written stands.
+func tryNormalForms(id, tier, repo string, rep *Report, known *KnownFile) (*Report, map[string]interface{}) {
+	open := failing(rep, known)
+	if len(open) == 0 {
+		return nil, nil
+	}
+	anch := anchorWords()
+	// functions the role-based anchors resolve to are what the rules read: never inlined
+	if a := rep.c.anchors(); a != nil {
+		av := reflect.ValueOf(a).Elem()
+		for i := 0; i < av.NumField(); i++ {
+			if av.Field(i).Type() == reflect.TypeOf((*ssa.Function)(nil)) && !av.Field(i).IsNil() {
+				fn := (*ssa.Function)(av.Field(i).UnsafePointer())
+				anch[fn.Name()] = true
+			}
+		}
+	}
+	var text strings.Builder
+	for _, o := range open {
+		text.WriteString(o.Key + "\n" + o.Detail + "\n" + strings.Join(o.Path, "\n") + "\n")
+	}
+	openText := text.String()
+	word := func(hay, w string) bool {
+		for i := 0; ; {
+			j := strings.Index(hay[i:], w)
+			if j < 0 {
+				return false
+			}
+			j += i
+			before := j == 0 || !isIdentByte(hay[j-1])
+			after := j+len(w) == len(hay) || !isIdentByte(hay[j+len(w)])
+			if before && after {
+				return true
+			}
+			i = j + 1
+		}
+	}
+	c := rep.c
+	// unexported functions of the package by bare name, and who calls whom
+	callees := map[string]map[string]bool{} // bare caller -> bare callees
+	bareOf := func(name string) string { return name[strings.LastIndex(name, ".")+1:] }
+	for _, fn := range c.allFns {
+		root := fn
+		for root.Parent() != nil {
+			root = root.Parent()
+		}
+		from := root.Name()
+		for _, ci := range callsIn(fn) {
+			if cal := ci.Common().StaticCallee(); cal != nil && c.inPkg(cal) && cal.Parent() == nil {
+				if callees[from] == nil {
+					callees[from] = map[string]bool{}
+				}
+				callees[from][cal.Name()] = true
+			}
+		}
+	}
+	mentioned := map[string]bool{}
+	for _, fn := range c.allFns {
+		if fn.Parent() == nil && word(openText, fn.Name()) {
+			mentioned[fn.Name()] = true
+		}
+	}
+	seen := map[string]bool{}
+	for f := range rep.FuncsSeen {
+		seen[bareOf(f)] = true
+	}
+	v1 := func(name string) bool { b := bareOf(name); return !anch[b] && mentioned[b] }
+	v2 := func(name string) bool {
+		b := bareOf(name)
+		if anch[b] {
+			return false
+		}
+		if mentioned[b] {
+			return true
+		}
+		for m := range mentioned {
+			if callees[m][b] {
+				return true
+			}
+		}
+		return false
+	}
+	v3 := func(name string) bool {
+		if v2(name) {
+			return true
+		}
+		b := bareOf(name)
+		if anch[b] {
+			return false
+		}
+		for m := range seen {
+			if callees[m][b] {
+				return true
+			}
+		}
+		return false
+	}
+	var attempts []map[string]interface{}
+	tried := map[string]bool{}
+	for _, v := range []struct {
+		name string
+		pick func(string) bool
+	}{{"helpers the open obligations name", v1}, {"helpers called by the functions the open obligations name", v2}, {"helpers called by any function the rules examined", v3}} {
+		nf, err := normalForm(repo, v.pick)
+		att := map[string]interface{}{"selection": v.name}
+		if err != nil {
+			att["error"] = err.Error()
+			attempts = append(attempts, att)
+			continue
+		}
+		sig := strings.Join(nf.inlined, ";")
+		if len(nf.inlined) == 0 || tried[sig] {
+			continue
+		}
+		tried[sig] = true
+		att["inlined"] = nf.inlined
+		att["left_alone"] = nf.kept
+		rep2, err := analyse(id, tier, repo, nf.overlay, nil, tier == "thorough")
+		if err != nil {
+			att["error"] = err.Error()
+			attempts = append(attempts, att)
+			continue
+		}
+		open2 := failing(rep2, known)
+		att["open_obligations"] = len(open2)
+		if os.Getenv("NF_DEBUG") != "" {
+			fmt.Fprintf(os.Stderr, "normal form [%s] inlined %v: %d open\n", v.name, nf.inlined, len(open2))
+			for _, o := range open2 {
+				fmt.Fprintf(os.Stderr, "   %s %s | %s | %s | %.300s\n", o.Status, o.Rule, o.Key, o.Pos, o.Detail)
+			}
+		}
+		attempts = append(attempts, att)
+		if len(open2) == 0 {
+			var was []string
+			for _, o := range open {
+				was = append(was, o.Rule+" | "+o.Key)
+			}
+			rep2.Notes = append(rep2.Notes, fmt.Sprintf("decided on a normal form of the source (%s): %s inlined at their call sites; on the text as written %d obligations were not discharged: %s", v.name, strings.Join(nf.inlined, ", "), len(open), strings.Join(was, "; ")))
+			fmt.Printf("NORMAL-FORM: property=%s decided with %s inlined (%d obligations open on the text as written)\n", id, strings.Join(nf.inlined, ", "), len(open))
+			return rep2, map[string]interface{}{"selection": v.name, "inlined": nf.inlined, "left_alone": nf.kept, "open_on_the_text_as_written": was}
+		}
+	}
+	if len(attempts) == 0 {
+		return nil, nil
+	}
+	return nil, map[string]interface{}{"attempts": attempts}
+}
+
+func isIdentByte(b byte) bool {
+	return b == '_' || b >= '0' && b <= '9' || b >= 'a' && b <= 'z' || b >= 'A' && b <= 'Z'
 }
 
 func doExplain(path, repo, verif string) int {
